@@ -596,6 +596,8 @@ class Interp(object):
       if h:
         return h(self, container, item)
       raise EngineError("symbolic `in` on concrete str")
+    if isinstance(container, DictLit):
+      return container.find(self, item) is not MISSING
     if isinstance(container, Model):
       return container.py___contains__(self, item)
     if isinstance(container, PyObj):
@@ -1477,13 +1479,26 @@ def walk_no_nested(node):
 
 
 class DictLit(object):
-  """A dict literal with concrete keys (``dict(connector=..)``, ``{}``-literals, **kwargs)."""
+  """A dict literal with concrete keys (``dict(connector=..)``, ``{}``-literals, **kwargs).  A
+  symbolic key is compared with each concrete key in turn (forking)."""
   def __init__(self, items):
     self.items = dict(items)
 
+  def find(self, ip, k):
+    if is_z3(k):
+      for kk in self.items:
+        if ip.ctx.branch(ip.eq(kk, k), 'dict key'):
+          return kk
+      return MISSING
+    try:
+      return k if k in self.items else MISSING
+    except TypeError:
+      return MISSING
+
   def get(self, ip, k):
-    if k in self.items:
-      return self.items[k]
+    kk = self.find(ip, k)
+    if kk is not MISSING:
+      return self.items[kk]
     raise PyRaise(ExcVal('KeyError', (k,)))
 
 
